@@ -154,7 +154,8 @@ static Result run_calc (const Case &c)
 		sf_count_t p1 = sf_seek (f, 0, SEEK_CUR) ;
 		int nd1 = sf_command (f, SFC_GET_NORM_DOUBLE, nullptr, 0), nf1 = sf_command (f, SFC_GET_NORM_FLOAT, nullptr, 0) ;
 		// data after the call continues where it was
-		std::vector<double> nxt ((size_t) ch, 0.0) ; sf_command (f, SFC_SET_NORM_DOUBLE, nullptr, norm) ; sf_count_t gn = sf_readf_double (f, nxt.data (), 1) ;
+		// (when the handle's own setting is the one the reference was read under it is not set again: the read then also shows, by behaviour, that the setting survived)
+		std::vector<double> nxt ((size_t) ch, 0.0) ; if (nd != norm) sf_command (f, SFC_SET_NORM_DOUBLE, nullptr, norm) ; sf_count_t gn = sf_readf_double (f, nxt.data (), 1) ;
 		sf_close (f) ;
 		std::string tag = std::string (norm ? " (normalised)" : " (unnormalised)") ;
 		if (rc1 != 0) return fail ("calc_signal_max_failed", std::to_string (rc1) + tag) ;
